@@ -53,12 +53,23 @@
    local variables, in every context, inside an activation); the wrong
    number of arguments is the arity error.  The premise that the functions'
    code lies where the table Bf says ([bcode]) is discharged by computation
-   through sound checkers (StmtCheck.v) for the machines of the examples.
-   The two sides bind function names to different representations; worlds
-   that agree elsewhere give the same results ([C01_statement_sem_vs_vm]).
+   through sound checkers (StmtCheck.v) for the built-ins on the machine
+   after builtin.Load, and PROVED for user functions from their definitions
+   (StmtDef.v): running f = (ps) -> body at top level (JMP over the body,
+   FUNC, the assignment) leaves a machine that meets it under the table with
+   one more entry ([C01_definition_extends_the_table]), so sessions of
+   definitions and statements in any order are covered
+   ([C01_sessions_with_definitions_partial]).  The two sides bind function
+   names to different representations; worlds that agree elsewhere give the
+   same results ([C01_statement_sem_vs_vm]), and over whole sessions
+   (StmtMixed.v) the two executable functions the check evaluates — sem_tree
+   and run_tree — agree tree after tree on values, error classes, global
+   data, output and input ([C01_sessions_sem_vs_vm_partial]), from the start
+   states of a real session ([C01_sem_start_state_holds],
+   [C01_vm_start_state_holds], [C01_start_worlds_related]).
    Missing for the full statement: functions whose bodies are statements,
-   recursion, closures, definitions as statements, calls nested in
-   expressions, generators. *)
+   recursion, closures, definitions inside blocks or functions, calls nested
+   in expressions, generators. *)
 Require Calc.LExprCorrect.
 Require Import Lia.
 Require Import Calc.Base Calc.Bytecode Calc.Value Calc.FloatText Calc.Ast Calc.Resolve Calc.Compile
